@@ -399,7 +399,10 @@ def proj_routing(res):
 def proj_names(res):
     if "err" in res:
         return {"err": res["err"]}
-    return [[a["key"], [[s["name"], s["rank"], s["original_name"]] for s in a["scaffolds"]], a["chr_csv"]] for a in res["ok"]["assemblies"]]
+    # which SEQUENCE carries which name matters ("ranked by size"): the contig intervals of each scaffold are part of the projection
+    return [[a["key"], [[s["name"], s["rank"], s["original_name"], slen(s["rows"]),
+                         [[r["name"], r["start"], r["end"]] for r in s["rows"] if r["t"] == "F"]] for s in a["scaffolds"]], a["chr_csv"]]
+            for a in res["ok"]["assemblies"]]
 
 
 def proj_stats(res):
